@@ -8,6 +8,8 @@ import (
 	"strings"
 	"testing"
 
+	"github.com/GuanceCloud/platypus/pkg/ast"
+	"github.com/GuanceCloud/platypus/pkg/engine/runtimev2"
 	"github.com/GuanceCloud/platypus/pkg/errchain"
 	"github.com/GuanceCloud/platypus/pkg/token"
 	"pgregory.net/rapid"
@@ -345,6 +347,10 @@ var stmtFaults = []struct {
 	{"rename-kind", true, func() *gen.Node { return gen.NCall("rename", id("k"), str("old")) }},
 	{"grok-unknown-pattern", true, func() *gen.Node { return gen.NCall("grok", id("_"), str("%{NOSUCHPATTERN:x}")) }},
 	{"use-kind", true, func() *gen.Node { return gen.NCall("use", id("k")) }},
+	{"use-missing", true, func() *gen.Node { return gen.NCall("use", str("nosuch.p")) }},
+	{"use-empty-name", true, func() *gen.Node { return gen.NCall("use", str("")) }},
+	{"use-blank-name", true, func() *gen.Node { return gen.NCall("use", str("  ")) }},
+	{"use-itself", true, func() *gen.Node { return gen.NCall("use", str("c17.p")) }},
 	{"trim-kind", true, func() *gen.Node { return gen.NCall("trim", id("k"), i64(1)) }},
 	{"set-measurement-kind", true, func() *gen.Node { return gen.NCall("set_measurement", id("k"), str("x")) }},
 	{"map-key-literal-int", true, func() *gen.Node { return gen.NSet("r", gen.NMap(i64(1), i64(2))) }},
@@ -518,6 +524,72 @@ func runFaultCaseV2(t rk.Failer, slot string, src string, span [2]int, name stri
 	evid.Case("v2/"+key, depth > 0, "error-position/run-v2")
 }
 
+// TestHostFunctionArgumentErrorsV2: errors a v2 host function reports about one of its parameters - a typed getter that
+// refuses the value - carry a position inside the call, whether the argument was written (by position, by name) or left
+// out so that the declared default is what the getter refuses.
+func TestHostFunctionArgumentErrorsV2(t *testing.T) {
+	type getter struct {
+		name string
+		get  func(ctx *runtimev2.Task, e *ast.CallExpr, ps []*runtimev2.Param, i int) *errchain.PlError
+	}
+	getters := []getter{
+		{"GetParamInt", func(c *runtimev2.Task, e *ast.CallExpr, ps []*runtimev2.Param, i int) *errchain.PlError { _, err := runtimev2.GetParamInt(c, e, ps, i); return err }},
+		{"GetParamFloat", func(c *runtimev2.Task, e *ast.CallExpr, ps []*runtimev2.Param, i int) *errchain.PlError { _, err := runtimev2.GetParamFloat(c, e, ps, i); return err }},
+		{"GetParamBool", func(c *runtimev2.Task, e *ast.CallExpr, ps []*runtimev2.Param, i int) *errchain.PlError { _, err := runtimev2.GetParamBool(c, e, ps, i); return err }},
+		{"GetParamString", func(c *runtimev2.Task, e *ast.CallExpr, ps []*runtimev2.Param, i int) *errchain.PlError { _, err := runtimev2.GetParamString(c, e, ps, i); return err }},
+		{"GetParamList", func(c *runtimev2.Task, e *ast.CallExpr, ps []*runtimev2.Param, i int) *errchain.PlError { _, err := runtimev2.GetParamList(c, e, ps, i); return err }},
+		{"GetParamMap", func(c *runtimev2.Task, e *ast.CallExpr, ps []*runtimev2.Param, i int) *errchain.PlError { _, err := runtimev2.GetParamMap(c, e, ps, i); return err }},
+	}
+	defaults := []struct {
+		name string
+		v    func() any
+	}{
+		{"nil", func() any { return nil }}, {"int64", func() any { return int64(2) }}, {"float64", func() any { return 1.5 }}, {"string", func() any { return "s" }},
+		{"bool", func() any { return true }}, {"list", func() any { return []any{int64(1)} }}, {"map", func() any { return map[string]any{"k": int64(1)} }}, {"int32", func() any { return int32(7) }},
+	}
+	calls := []string{"f(5)", "f(5, factor = {\"k\": [1]})", "f(a = 5)", "f(5, nil)", "y = [1, f(5)]", "if f(5) { }"}
+	n, errs := 0, 0
+	for _, g := range getters {
+		for _, d := range defaults {
+			g, d := g, d
+			params := []*runtimev2.Param{{Name: "a"}, {Name: "factor", Val: d.v}}
+			fn := &runtimev2.Fn{
+				CallCheck: func(ctx *runtimev2.Task, e *ast.CallExpr) *errchain.PlError { return runtimev2.CheckPassParam(ctx, e, params) },
+				Call: func(ctx *runtimev2.Task, e *ast.CallExpr) *errchain.PlError {
+					if err := g.get(ctx, e, params, 1); err != nil {
+						return err
+					}
+					ctx.Regs.ReturnAppend(runtimev2.V{V: true, T: ast.Bool})
+					return nil
+				},
+				Desc: runtimev2.FnDesc{Name: "f", Params: params},
+			}
+			for ci, call := range calls {
+				src := "x = 1\n  " + call + "\nz = 3"
+				span := [2]int{strings.Index(src, call), strings.Index(src, call) + len(call)}
+				rp := replay{Src: src, Part: "error-v2-host", Fault: g.name + " on default " + d.name, Span: span}
+				s, lerr, crash := impl.LoadV2("c17.p", src, map[string]*runtimev2.Fn{"f": fn})
+				if crash != nil || lerr != nil {
+					rk.Fail(t, "host-arg-errors", rp, "harness: %q does not load: %v %v", src, lerr, crash)
+				}
+				rerr, crash := impl.RunV2(s, nil)
+				if crash != nil {
+					rk.Fail(t, "host-arg-errors", rp, "v2 run crashed: %s\nsource: %q", crash.Value, src)
+				}
+				n++
+				if rerr == nil {
+					continue // the getter accepts this value
+				}
+				errs++
+				checkChain(t, "host-arg-errors", rp, rerr, src, span, "v2 error of "+g.name+" (declared default: "+d.name+")")
+				evid.Case(fmt.Sprintf("hostargerr/%s/%s/%d", g.name, d.name, ci), true, "error-position/v2-host-function-argument")
+			}
+		}
+	}
+	evid.Extra("host_argument_errors_checked", errs)
+	evid.Exhaustive("typed getter x declared default x call shape (argument written / named / omitted)", n)
+}
+
 func TestErrorPositions(t *testing.T) {
 	rk.Check(t, "errors", 2, evid.Scale(3000, 30000), func(t *rapid.T) {
 		var stmt *gen.Node
@@ -571,7 +643,7 @@ func TestErrorPositionTable(t *testing.T) {
 				}
 			}
 			prog := gen.FixAll(append(prelude(), body...))
-			for li, lay := range []gen.Layout{gen.Minimal{}, &gen.Choices{C: []int{7, 2, 9, 4, 11, 1}}} {
+			for li, lay := range []gen.Layout{gen.Minimal{}, &gen.Choices{C: []int{7, 2, 9, 4, 11, 1}}, gen.Broken{}} {
 				src := gen.Print(prog, lay)
 				runFaultCase(t, "errtable", src, [2]int{s.P.Start, s.P.End}, name, load, nestd, fmt.Sprintf("table/%s/%d/%d", name, nestd, li))
 				if !load && !strings.Contains(src, "add_key") && !strings.Contains(src, "load_json") && !strings.Contains(src, "undefined_name") {
